@@ -10,6 +10,7 @@ from ..model import AnalysisError, ClassInfo, FuncInfo, norm, walk_no_nested
 from ..paths import enumerate_paths
 from ..report import ALLOWED, DISCHARGED, VIOLATED, RuleResult
 from ..util import enclosing_loop, names_in
+from ..util import follows_unconditionally as follows_unconditionally_
 
 ST = "json_to_models/models/structure.py"
 PLACERS = {"append": 0, "insert": 1, "insert_before": 0, "insert_after": 0}
@@ -142,6 +143,31 @@ def rule_lay2(ctx: Ctx) -> RuleResult:
         why = f"generate calls={len(gens)} class appends={len(cls_app)} nested texts passed={nested_ok}"
     rr.ob(g.relpath, g.qualname, "for gen, nested_classes in generators: ...", "every generator renders once, receives the "
           "texts of its nested classes, and its class text is appended once", DISCHARGED if ok else VIOLATED, why, g.node.lineno)
+    # imports returned by the recursion and by each generator are all accumulated into the returned list
+    for fn in [g] + [x for x in prog.module("json_to_models/models/base.py").all_funcs
+                     if x.name in ("_render_generators", "_create_generators") and x is not g]:
+        rets = [n for n in walk_no_nested(fn.node) if isinstance(n, ast.Return) and isinstance(n.value, ast.Tuple)]
+        if not rets:
+            continue
+        acc = norm(rets[0].value.elts[0])
+        for n in walk_no_nested(fn.node):
+            if isinstance(n, ast.Assign) and isinstance(n.targets[0], ast.Tuple) and len(n.targets[0].elts) == 2 and \
+                    isinstance(n.value, ast.Call):
+                callee = norm(n.value.func).split(".")[-1]
+                if callee not in (g.name, "generate", "_render_generators"):
+                    continue
+                rr.instances += 1
+                part = norm(n.targets[0].elts[0])
+                from ..util import enclosing_block as _eb
+                blk = _eb(fn.module, n)
+                ext = [c for c in walk_no_nested(fn.node) if isinstance(c, ast.Call) and norm(c.func) == f"{acc}.extend"
+                       and c.args and norm(c.args[0]) == part]
+                ok = part != acc and bool(ext) and blk is not None and any(follows_unconditionally_(blk, n, c) for c in ext)
+                rr.ob(fn.relpath, fn.qualname, norm(n)[:70], f"the imports returned by `{callee}` are added to the list the "
+                      f"function returns", DISCHARGED if ok else VIOLATED,
+                      f"{acc}.extend({part})" if ok else (f"the result is unpacked into the accumulator `{acc}` itself: imports "
+                      f"collected so far (earlier siblings' nested classes) are discarded" if part == acc else
+                      f"`{part}` is never added to `{acc}`: names used by those classes are not imported"), n.lineno)
     # generate_code joins exactly those classes
     gc = prog.func("json_to_models/models/base.py", "generate_code")
     rr.instances += 1
